@@ -21,9 +21,15 @@ EDITS = [
  ("rotate_journal: sealed path bound before use", "src/journal/manager.rs", [("        let (sealed_path, _) = journal_writer.rotate()?;\n", "        let rotated = journal_writer.rotate()?;\n        let sealed_path = rotated.0;\n")]),
  ("Keyspace::len: count via checked pattern", "src/keyspace/mod.rs", [("            let _ = guard.key()?;\n            count += 1;\n        }\n\n        Ok(count)\n    }\n\n    /// Returns `true` if the keyspace is empty.", "            guard.key()?;\n            count += 1;\n        }\n\n        Ok(count)\n    }\n\n    /// Returns `true` if the keyspace is empty.")]),
  ("mark_range: reorder independent lets", "src/tx/optimistic/conflict_manager.rs", [("        let start = match range.start_bound() {\n            Bound::Included(k) => Bound::Included(k.clone()),\n            Bound::Excluded(k) => Bound::Excluded(k.clone()),\n            Bound::Unbounded => Bound::Unbounded,\n        };\n\n        let end = match range.end_bound() {\n            Bound::Included(k) => Bound::Included(k.clone()),\n            Bound::Excluded(k) => Bound::Excluded(k.clone()),\n            Bound::Unbounded => Bound::Unbounded,\n        };", "        let end = match range.end_bound() {\n            Bound::Included(k) => Bound::Included(k.clone()),\n            Bound::Excluded(k) => Bound::Excluded(k.clone()),\n            Bound::Unbounded => Bound::Unbounded,\n        };\n\n        let start = match range.start_bound() {\n            Bound::Included(k) => Bound::Included(k.clone()),\n            Bound::Excluded(k) => Bound::Excluded(k.clone()),\n            Bound::Unbounded => Bound::Unbounded,\n        };")]),
+ ("encode_kvs: two rows swapped, max_memtable_size bytes bound by a let", "src/keyspace/options.rs", [("            {\n                let key = encode_config_key(keyspace_id, \"level_count\");\n                (key, [self.level_count].into())\n            },\n            {\n                let key = encode_config_key(keyspace_id, \"manual_journal_persist\");\n                (key, [u8::from(self.manual_journal_persist)].into())\n            },\n", "            {\n                let key = encode_config_key(keyspace_id, \"manual_journal_persist\");\n                (key, [u8::from(self.manual_journal_persist)].into())\n            },\n            {\n                let key = encode_config_key(keyspace_id, \"level_count\");\n                (key, [self.level_count].into())\n            },\n"), ("                let key = encode_config_key(keyspace_id, \"max_memtable_size\");\n                (key, self.max_memtable_size.to_le_bytes().into())", "                let k = encode_config_key(keyspace_id, \"max_memtable_size\");\n                let bytes = self.max_memtable_size.to_le_bytes();\n                (k, bytes.into())")]),
+ ("WorkerPool::start: debug line after the counter is raised", "src/worker_pool.rs", [("        thread_counter.fetch_add(pool_size, Relaxed);\n", "        thread_counter.fetch_add(pool_size, Relaxed);\n        log::trace!(\"counted {pool_size} workers\");\n")]),
+ ("TxDatabase::keyspace: handle bound by a let", "src/tx/single_writer/mod.rs", [("        Ok(SingleWriterTxKeyspace {\n            inner: keyspace,\n            db: self.clone(),\n        })", "        let db = self.clone();\n        let handle = SingleWriterTxKeyspace { inner: keyspace, db };\n        Ok(handle)")]),
 ]
 bad = 0
+ONLY = sys.argv[1:]   # optional: substrings of the titles to run
 for (title, f, subs) in EDITS:
+    if ONLY and not any(o in title for o in ONLY):
+        continue
     s = tempfile.mkdtemp(prefix="fjbenign_", dir="/tmp")
     try:
         subprocess.run(["rsync", "-a", "--exclude", "target", "--exclude", ".git", "/repo/", s + "/repo/"], check=True)
